@@ -289,3 +289,24 @@ Section Queries.
     destruct (Hs p Hp) as [f [_ Hin]]. eauto.
   Qed.
 End Queries.
+
+(* a non-trivial state inside the invariant (premise of the theorems that assume LInv) *)
+Lemma linv_example :
+  exists s, run_ok empty_st [leaf "a"; inner (Some 0) None []] = Some s /\ LInv Hid ct0 s /\
+            live s 0 /\ attached s 0 /\ parent s 0 = Some 1.
+Proof.
+  eexists. split; [vm_compute; reflexivity|]. split; [|repeat split; vm_compute; auto].
+  intros a Hl Ha. unfold live in Hl. vm_compute in Hl.
+  destruct a as [|[|a]]; [| |exfalso; lia].
+  - constructor.
+    + intros k f i Hin. vm_compute in Hin. contradiction.
+    + intros p Hp. vm_compute in Hp. inversion Hp; subst. exists (lit "req"). split; vm_compute; auto.
+    + vm_compute; reflexivity.
+    + vm_compute; reflexivity.
+  - constructor.
+    + intros k f i Hin. vm_compute in Hin. destruct Hin as [E|[]]. inversion E; subst.
+      repeat split; vm_compute; reflexivity.
+    + intros p Hp. vm_compute in Hp. discriminate.
+    + vm_compute; reflexivity.
+    + vm_compute; reflexivity.
+Qed.
